@@ -12,12 +12,24 @@ type JSONValue interface{}
 func ConvertValueList(values []interface{}) ([]interface{}, error) {
 	var jsonValues []interface{}
 	for _, val := range values {
-		if val == nil {
+		if IsNilValue(val) {
 			return nil, fmt.Errorf("null value cannot be inserted")
 		}
 		jsonValues = append(jsonValues, ConvertToJSONSupportedValue(val))
 	}
 	return jsonValues, nil
+}
+
+// IsNilValue reports whether v is nil or a nil pointer, slice, map or interface (which JSON renders as null).
+func IsNilValue(v interface{}) bool {
+	if v == nil {
+		return true
+	}
+	switch rv := reflect.ValueOf(v); rv.Kind() {
+	case reflect.Ptr, reflect.Slice, reflect.Map, reflect.Interface:
+		return rv.IsNil()
+	}
+	return false
 }
 
 // HasNilValue reports whether v is nil or contains nil somewhere inside its maps, slices, arrays, structs or pointers.
@@ -32,6 +44,9 @@ func hasNilReflectValue(rv reflect.Value) bool {
 	case reflect.Ptr, reflect.Interface:
 		return rv.IsNil() || hasNilReflectValue(rv.Elem())
 	case reflect.Map:
+		if rv.IsNil() {
+			return true
+		}
 		iter := rv.MapRange()
 		for iter.Next() {
 			if hasNilReflectValue(iter.Value()) {
@@ -39,6 +54,9 @@ func hasNilReflectValue(rv reflect.Value) bool {
 			}
 		}
 	case reflect.Slice, reflect.Array:
+		if rv.Kind() == reflect.Slice && rv.IsNil() {
+			return true
+		}
 		for i := 0; i < rv.Len(); i++ {
 			if hasNilReflectValue(rv.Index(i)) {
 				return true
